@@ -114,6 +114,9 @@ func doubleCountSafe(m *model, q mQuery) bool {
 		return true
 	}
 	for _, it := range q.Items {
+		if _, ok := mm.Types[it.Field]; !ok {
+			continue
+		}
 		agg := typeAgg(mm.Types[it.Field])
 		if it.Fn != "" {
 			agg = it.Fn
@@ -138,6 +141,13 @@ func TestQueryDuringFlush(t *testing.T) {
 		defer e.close()
 		wt := newWindowTracker(sc.S)
 		written := map[string]map[string]bool{}
+		if ev.Known(sigOneFieldFile) {
+			// statements of this test name one field only while single-field files are read wrongly
+			written["\x00single"] = map[string]bool{}
+			for _, md := range sc.Metrics {
+				written["\x00single"][md.Name] = true
+			}
+		}
 		var log []string
 		history := func() string { return "  history:\n    " + strings.Join(log, "\n    ") + "\n" }
 		write := func(label string, max int) {
@@ -337,6 +347,7 @@ func (e *env) expectationOf(q mQuery) (expectation, int64) {
 	exp, _, qiv := e.mdl.evalWithRisk(q, currentSemantics(), e.riskFamilies(q))
 	return exp, qiv
 }
+
 // ---- goroutine stress: flush / compaction / queries -------------------------------------------------------
 
 // TestConcurrentFlushQuery: one writer goroutine adds 1/8 to a fixed set of slots of a sum field; a
